@@ -403,7 +403,7 @@ func c10PluginCheck(lb *lexer.Builder, src string) (kind, detail string) {
 }
 
 func c10Run(c *core.Ctx) {
-	processWarmup()
+	processWarmup(c)
 	lb := lexer.NewBuilder()
 	n := 5
 	if c.Thorough() {
